@@ -141,6 +141,26 @@ impl AsMut<u32> for Sly {
     fn as_mut(&mut self) -> &mut u32 { &mut self.b }
 }
 
+/// The same probe with a type parameter: a field `SlyT<T>` of `struct S<T>` "involves generics", so a listed `#[as_ref(u32)]`
+/// gets the Forwarded body (the non-generic `Sly` goes through src/as.rs' `ExtractRef` instead).
+#[derive(Clone, Copy, Debug, PartialEq, Eq)]
+#[cfg_attr(kani, derive(kani::Arbitrary))]
+pub struct SlyT<T> {
+    pub a: u32,
+    pub b: u32,
+    pub t: T,
+}
+impl<T> SlyT<T> {
+    pub fn as_ref(&self) -> &u32 { &self.a }
+    pub fn as_mut(&mut self) -> &mut u32 { &mut self.a }
+}
+impl<T> AsRef<u32> for SlyT<T> {
+    fn as_ref(&self) -> &u32 { &self.b }
+}
+impl<T> AsMut<u32> for SlyT<T> {
+    fn as_mut(&mut self) -> &mut u32 { &mut self.b }
+}
+
 /// Probe collection: iterates `y` first, then `x`; its iterators record where they come from.
 #[derive(Clone, Copy, Debug, PartialEq, Eq)]
 #[cfg_attr(kani, derive(kani::Arbitrary))]
@@ -233,6 +253,7 @@ KINDS = {
     "box": K("Box<Inner>", "Box<Inner>", "Inner", mk="Box::new(g{i})", val="*v.{f}"),
     "ring": K("Ring", "Ring", "Ring"),
     "sly": K("Sly", "Sly", "Sly"),
+    "slyT": K("SlyT<T>", "SlyT<u8>", "SlyT<u8>", gen="u8"),
     "arr": K("[u8; 3]", "[u8; 3]", "[u8; 3]"),
     "bag": K("Bag", "Bag", "Bag"),
     "Tarr": K("T", "[u8; 3]", "[u8; 3]", gen="[u8; 3]"),
@@ -681,7 +702,7 @@ pub fn post_iter_forms_agree(by_ref: &[Option<u8>; @L1@], by_mut: &[Option<u8>; 
 # AsRef / AsMut
 # ----------------------------------------------------------------------------------------------------------------
 XNAME = {"u32": "u32", "u16": "u16", "Inner": "inner", "InnerAlias": "alias", "T": "t", "&'a Inner": "refinner",
-         "&'a mut Inner": "mutinner", "Bag": "bag", "Sly": "sly"}
+         "&'a mut Inner": "mutinner", "Bag": "bag", "Sly": "sly", "SlyT<T>": "slyT"}
 # types for which the probe `Inner` has a (non-decoy) AsRef/AsMut impl pointing into itself
 FWD_TYPES = ("u32", "u16")
 
@@ -717,7 +738,7 @@ def prog_asref(key, shape, kind, convs, struct_conv=None, muts=True, tys=None, f
         if conv == "":
             impls.append((i, fty, "identity", True))
         elif conv == "forward":
-            for x in (("u32",) if fty == "Sly" else FWD_TYPES):
+            for x in (("u32",) if fty.startswith("Sly") else FWD_TYPES):
                 impls.append((i, x, "forwarded", True))
             if fty == "Inner":
                 impls.append((i, "Inner", "forwarded", False))   # blanket forward REACHES the decoy (AsRef only: it is pure)
@@ -923,6 +944,8 @@ def quick_programs():
     # forwarded bodies must call the TRAIT method of the field type, not an inherent method of the same name
     P.append(asref_sel("tuple", 2, 1, "attr", "u32", kind="sly"))
     P.append(asref_struct("named", "forward", kind="sly"))
+    P.append(asref_sel("named", 2, 0, "attr", "u32", kind="slyT"))
+    P.append(asref_struct("tuple", "u32", kind="slyT"))
     return P
 
 
@@ -1024,6 +1047,9 @@ def thorough_programs(seed):
             for sel in range(n):
                 P.append(asref_sel(shape, n, sel, "attr", "u32", kind="sly"))
                 P.append(asref_sel(shape, n, sel, "attr", "forward", kind="sly"))
+                P.append(asref_sel(shape, n, sel, "attr", "u32", kind="slyT"))
+        P.append(asref_struct(shape, "u32", kind="slyT"))
+        P.append(asref_struct(shape, "forward", kind="slyT"))
     # random tail: extra configurations drawn with the seed (field kind x shape x selection)
     seen = {p.key for p in P}
     tail = []
